@@ -1,0 +1,200 @@
+//go:build verif
+// +build verif
+
+// Verification hooks. This file is compiled only with the build tag "verif";
+// it adds observation points for the model-checking harness in /verif and
+// changes no behaviour of the package.
+
+package xpath
+
+import (
+	"fmt"
+	"reflect"
+	"sort"
+	"strconv"
+	"strings"
+)
+
+// VerifParseTree returns a fully parenthesised rendering of the parse tree of
+// expr (what parse() produces, before the query builder runs).
+func VerifParseTree(expr string, namespaces map[string]string) (s string, err error) {
+	defer func() {
+		if e := recover(); e != nil {
+			s, err = "", fmt.Errorf("%v", e)
+		}
+	}()
+	if expr == "" {
+		return "", fmt.Errorf("empty expression")
+	}
+	return verifNode(parse(expr, namespaces)), nil
+}
+
+func verifNode(n node) string {
+	switch v := n.(type) {
+	case nil:
+		return "<nil>"
+	case *rootNode:
+		return "ROOT"
+	case *operatorNode:
+		return "(" + verifNode(v.Left) + " " + v.Op + " " + verifNode(v.Right) + ")"
+	case *operandNode:
+		switch x := v.Val.(type) {
+		case float64:
+			return "#" + strconv.FormatFloat(x, 'g', -1, 64)
+		case string:
+			return strconv.Quote(x)
+		}
+		return fmt.Sprintf("?%v", v.Val)
+	case *axisNode:
+		test := ""
+		switch {
+		case v.Prop != "":
+			test = v.Prop + "()"
+			if v.LocalName != "" {
+				test = v.Prop + "(" + strconv.Quote(v.LocalName) + ")"
+			}
+		case v.typeTest == allNode:
+			test = "node()"
+		case v.LocalName == "" && v.Prefix == "":
+			test = "*"
+		case v.LocalName == "":
+			test = v.Prefix + ":*"
+		case v.Prefix != "":
+			test = v.Prefix + ":" + v.LocalName
+		default:
+			test = v.LocalName
+		}
+		step := v.AxisType + "::" + test
+		if v.Input == nil {
+			return step
+		}
+		return verifNode(v.Input) + "/" + step
+	case *filterNode:
+		return verifNode(v.Input) + "[" + verifNode(v.Condition) + "]"
+	case *functionNode:
+		args := make([]string, len(v.Args))
+		for i, a := range v.Args {
+			args[i] = verifNode(a)
+		}
+		name := v.FuncName
+		if v.Prefix != "" {
+			name = v.Prefix + ":" + name
+		}
+		return name + "(" + strings.Join(args, ", ") + ")"
+	case *groupNode:
+		return "{" + verifNode(v.Input) + "}"
+	case *variableNode:
+		if v.Prefix != "" {
+			return "$" + v.Prefix + ":" + v.Name
+		}
+		return "$" + v.Name
+	}
+	return fmt.Sprintf("?%T", n)
+}
+
+// VerifDumpState renders the reflectable mutable state of the query tree of a
+// compiled expression: per query node its type, scalar counters, whether an
+// iterator closure is installed, and table/buffer sizes. Closure-captured
+// variables are invisible to it (the harness never prunes on this dump).
+func VerifDumpState(e *Expr) string {
+	var sb strings.Builder
+	verifDumpQuery(&sb, e.q, map[uintptr]bool{})
+	return sb.String()
+}
+
+// VerifDumpIter does the same for the private query clone of an iterator.
+func VerifDumpIter(it *NodeIterator) string {
+	var sb strings.Builder
+	verifDumpQuery(&sb, it.query, map[uintptr]bool{})
+	return sb.String()
+}
+
+func verifDumpQuery(sb *strings.Builder, q query, seen map[uintptr]bool) {
+	if q == nil {
+		sb.WriteString("nil")
+		return
+	}
+	v := reflect.ValueOf(q)
+	if v.Kind() == reflect.Ptr {
+		if v.IsNil() {
+			sb.WriteString("nil")
+			return
+		}
+		if seen[v.Pointer()] {
+			sb.WriteString("^")
+			return
+		}
+		seen[v.Pointer()] = true
+		v = v.Elem()
+	}
+	sb.WriteString(v.Type().Name())
+	if v.Kind() != reflect.Struct {
+		return
+	}
+	sb.WriteString("{")
+	t := v.Type()
+	for i := 0; i < v.NumField(); i++ {
+		f, fv := t.Field(i), v.Field(i)
+		switch fv.Kind() {
+		case reflect.Int, reflect.Bool:
+			if f.Name == "Self" || f.Name == "Sibling" || f.Name == "IsOr" || f.Name == "MatchSelf" || f.Name == "NoPosition" {
+				continue // configuration, not state
+			}
+			fmt.Fprintf(sb, "%s=%v ", f.Name, fv)
+		case reflect.Func:
+			if f.Name == "iterator" {
+				fmt.Fprintf(sb, "%s=%v ", f.Name, !fv.IsNil())
+			}
+		case reflect.Map:
+			keys := make([]string, 0, fv.Len())
+			for _, k := range fv.MapKeys() {
+				keys = append(keys, fmt.Sprint(k))
+			}
+			sort.Strings(keys)
+			fmt.Fprintf(sb, "%s=%v ", f.Name, keys)
+		case reflect.Slice:
+			fmt.Fprintf(sb, "%s=len%d ", f.Name, fv.Len())
+		case reflect.Interface:
+			if fv.IsNil() {
+				fmt.Fprintf(sb, "%s=nil ", f.Name)
+				continue
+			}
+			if sub, ok := verifAsQuery(fv); ok {
+				sb.WriteString(f.Name + "=")
+				verifDumpQuery(sb, sub, seen)
+				sb.WriteString(" ")
+			} else if f.Name == "currentNode" {
+				sb.WriteString("currentNode=set ")
+			}
+		}
+	}
+	sb.WriteString("}")
+}
+
+func verifAsQuery(fv reflect.Value) (query, bool) {
+	if !fv.CanInterface() {
+		// unexported field: read through an addressable copy is not possible;
+		// use the typed accessors below instead
+		return nil, false
+	}
+	q, ok := fv.Interface().(query)
+	return q, ok
+}
+
+// VerifCacheGet drives a loadingCache from outside the package.
+func VerifCacheGet(c *loadingCache, key interface{}) (interface{}, error) { return c.get(key) }
+
+// VerifCacheStats observes a loadingCache: sorted keys, capacity, reset count.
+func VerifCacheStats(c *loadingCache) (keys []string, capacity, resets int) {
+	c.RLock()
+	defer c.RUnlock()
+	for k := range c.m {
+		keys = append(keys, fmt.Sprint(k))
+	}
+	sort.Strings(keys)
+	return keys, c.cap, c.reset
+}
+
+// VerifCacheRaw observes a loadingCache without taking its lock (for use at
+// scheduling points of the controlled scheduler, where a lock may be held).
+func VerifCacheRaw(c *loadingCache) (n, capacity int) { return len(c.m), c.cap }
